@@ -1286,6 +1286,12 @@ func (h *c14Hist) check() bool {
 func (e *c14Env) newHist(idx int, r *vlib.Rand, mode c14Mode, big bool, tag string) *c14Hist {
 	h := &c14Hist{e: e, idx: idx, mode: mode, r: r, keys: map[string]bool{}}
 	h.cs = c14MakeContents(r, big)
+	if big {
+		e.run.Count("histories_with_the_1MiB_content", 1)
+	}
+	for _, c := range h.cs {
+		e.run.Count("contents_of_class."+c.Class, 1)
+	}
 	for i := 0; i < 2; i++ {
 		h.docs = append(h.docs, &c14Doc{ID: fmt.Sprintf("c14%sh%dd%d", tag, idx, i), Revs: map[string]*c14Rev{}})
 	}
@@ -1330,6 +1336,7 @@ func (h *c14Hist) finish() {
 func TestVerif_C14_Histories(t *testing.T) {
 	run := vlib.Start(t, "C14", "histories")
 	defer run.Finish()
+	base.SetUpTestLogging(t, base.LevelWarn, base.KeyNone) // request-level logging of ~100 000 reads only slows the run down
 	nHist := run.N(200, 4000)
 	steps := 12
 	workers := 4
